@@ -22,7 +22,7 @@ func (m *Machine) clockNow() value {
 	}
 	if m.clockSymbolic {
 		// fresh non-negative step, bounded so that sums cannot overflow
-		d := m.freshVar("i64", bvSort(64))
+		d := m.freshVar("clock", bvSort(64)) // recorded as kind "clock": skipped by native replay (real time there)
 		tt := m.tt
 		m.Assume(tt.And(tt.BVCmp("bvsle", tt.BV(0, 64), d), tt.BVCmp("bvsle", d, tt.BV(1<<40, 64))))
 		cur := m.toTerm(m.clockVal())
